@@ -248,6 +248,30 @@ def work(job):
     return res
 
 
+def reshrink(f):
+    """second, thorough minimisation of a failure that the first pass left unexplained"""
+    _, mode, ident = f['input']['source'].split(':')
+    contract, nw, normal = f['contract'], f['input']['normalize_whitespace'], mode == 'normal'
+    tree, x = mdgen.gen(int(ident), mode)
+
+    def fails(t):
+        return any(b[0] == contract for b in check(t, nw, normal))
+    if not fails(x):
+        return f
+    _, mx, _ = mdgen.shrink(tree, fails, 2500, normal=normal)
+    again = [b for b in check(mx, nw, normal) if b[0] == contract]
+    if not again:
+        return f
+    g = dict(f)
+    g['key'] = '%s|%r|nw=%s' % (contract, mx, nw)
+    g['input'] = dict(f['input'], markdown=mx)
+    g['observed'], g['expected'] = _trim(again[0][1]), _trim(again[0][2])
+    without = any(b[0] == contract for b in check(mx, False, normal)) if nw else True
+    g['class'] = classify(mx, contract, nw, without, again[0][1])
+    g['replay'] = f['replay'].replace('x = %r\n' % f['input']['markdown'], 'x = %r\n' % mx)
+    return g
+
+
 def select(failures, n):
     """the 3 smallest inputs of every (contract, class), then the globally smallest, n in all"""
     order = lambda f: (len(f['input']['markdown']), f['input']['markdown'], f['key'])  # noqa: E731
@@ -295,7 +319,30 @@ def run(tier, seed, workers):
             sys.stderr.write('b09: %d/%d work items, %.0f s\n' % (min(lo + step, len(chunks)), len(chunks), t.s()))
         if len(failures) > 4 * MAX_FAILURES + 2000:       # bound the memory: keep the smallest
             failures = {f['key']: f for f in select(failures.values(), MAX_FAILURES + 200)}
+    # failures the heuristics could not attribute: minimise them again, without the per-item limits
+    todo = [f for f in sorted(failures.values(), key=order)
+            if f['class'] == 'unclassified' and f['input']['source'].startswith('gen:')][:96]
+    for f, g in zip(todo, pool_map(reshrink, todo, workers)):
+        if g is not f:
+            c_old = '%s|%s' % (f['contract'], f['class'])
+            c_new = '%s|%s' % (g['contract'], g['class'])
+            classes[c_old] -= 1
+            if not classes[c_old]:
+                del classes[c_old]
+            failures.pop(f['key'])
+            if g['key'] in failures:
+                seen.discard(hash(f['key']))
+            else:
+                failures[g['key']] = g
+                seen.add(hash(g['key']))
+                seen.discard(hash(f['key']))
+                classes[c_new] = classes.get(c_new, 0) + 1
     fl = select(failures.values(), MAX_FAILURES)
+    by_class, minimal = {}, {}
+    for c, v in classes.items():
+        by_class[c.split('|', 1)[1]] = by_class.get(c.split('|', 1)[1], 0) + v
+    for f in sorted(failures.values(), key=order):
+        minimal.setdefault(f['class'], {'contract': f['contract'], 'key': f['key'], 'input': f['input']})
     out.update({
         'domain': ('SPEC: the 652 CommonMark 0.30 examples; DOCS: %d mdgen documents in mode free '
                    '(every block/inline construct, canonical and non-canonical spellings, container '
@@ -313,6 +360,8 @@ def run(tier, seed, workers):
         'node_kind_counts': kinds,
         'failures_total': len(seen),
         'class_counts': classes,
+        'failures_by_class': by_class,
+        'minimal_input_per_class': minimal,
         'failures': fl,
         'elapsed_s': round(t.s(), 1),
     })
